@@ -1195,11 +1195,44 @@ func c19R6(p *Prog, r *Report) {
 			}
 			s := strings.ReplaceAll(exprStr(cv.Node), " ", "")
 			lab := -1
-			switch {
-			case s == "resp.StatusCode!=http.StatusNoContent", s == "header.ID!=msg.Header.ID", s == "header.RCode!=dnsmessage.RCodeSuccess":
-				lab = LFalse
-			case s == "resp.StatusCode==http.StatusNoContent", s == "header.ID==msg.Header.ID", s == "header.RCode==dnsmessage.RCodeSuccess", s == "header.Response":
-				lab = LTrue
+			// conditions told by the field selected and the type it is selected from, so that
+			// the names of the locals do not matter: <http.Response>.StatusCode vs
+			// http.StatusNoContent, <dnsmessage.Header>.ID vs <…Header>.ID, <Header>.RCode vs
+			// RCodeSuccess, <Header>.Response
+			fieldOf := func(e ast.Expr) string {
+				sel, ok := ast.Unparen(e).(*ast.SelectorExpr)
+				if !ok {
+					return ""
+				}
+				return namedTypeName(fc.Info().TypeOf(sel.X)) + "." + sel.Sel.Name
+			}
+			kind := ""
+			if y != nil {
+				fx, fy := fieldOf(x), fieldOf(y)
+				cx, cy := exprStr(x), exprStr(y)
+				switch {
+				case (fx == "Response.StatusCode" && cy == "http.StatusNoContent") || (fy == "Response.StatusCode" && cx == "http.StatusNoContent"):
+					kind = "status == 204"
+				case fx == "Header.ID" && fy == "Header.ID":
+					kind = "transaction ID matches"
+				case (fx == "Header.RCode" && cy == "dnsmessage.RCodeSuccess") || (fy == "Header.RCode" && cx == "dnsmessage.RCodeSuccess"):
+					kind = "RCODE success"
+				}
+				if kind != "" {
+					switch op {
+					case token.EQL:
+						lab = LTrue
+					case token.NEQ:
+						lab = LFalse
+					default:
+						kind = ""
+					}
+				}
+			} else if fieldOf(x) == "Header.Response" {
+				kind, lab = "response bit", LTrue
+			}
+			if kind != "" {
+				s = kind
 			}
 			_, _, _ = x, y, op
 			if lab >= 0 {
